@@ -330,6 +330,13 @@ def matrix():
         for ch in SIG_CHARS + ['']:
             for text in (ch, 'x' + ch + ch + 'y'):
                 yield {'kind': 'quote', 'fn': fn, 'text': text}
+    # every spelling of every %XX escape (22 x 22 hex-digit pairs, upper, lower and mixed case)
+    hexd = '0123456789abcdefABCDEF'
+    for a in hexd:
+        for b in hexd:
+            yield {'kind': 'unquote', 'text': '%' + a + b}
+            if a in 'cCdDeE':
+                yield {'kind': 'unquote', 'text': 'x%' + a + b + '%a9%' + a + b + '%A9y'}
 
 
 def rtext(r, maxlen=8):
@@ -361,7 +368,7 @@ def gen_roundtrip(r):
     return c
 
 
-PCHARS = list("abcXYZ019-._~!$&'()*+,;=:@") + ['%41', '%C3%A9', '%2F', '%2f', '%20', '%FF', '%e6%97%a5', '%25']
+PCHARS = list("abcXYZ019-._~!$&'()*+,;=:@") + ['%41', '%C3%A9', '%2F', '%2f', '%20', '%FF', '%e6%97%a5', '%25', '%eF%bB%Bf', '%cE%b1', '%4a', '%4A']
 
 
 def gen_urltext(r):
@@ -441,7 +448,8 @@ def gen(r):
         return {'kind': 'quote', 'fn': r.choice(list(QUOTERS)), 'text': rtext(r, 10)}
     if x < 0.55:
         return {'kind': 'unquote', 'text': ''.join(r.choice(['%', '%4', '%41', '%C3', '%A9', '%c3%a9', '%FF', 'a',
-                                                              '\xe9', '%zz', '%%', '+', ' ', '%00', '\u65e5', '%E6%97'])
+                                                              '\xe9', '%zz', '%%', '+', ' ', '%00', '\u65e5', '%E6%97',
+                                                              '%' + r.choice('0123456789abcdefABCDEF') + r.choice('0123456789abcdefABCDEF')])
                                                     for _ in range(r.randint(0, 8)))}
     if x < 0.8:
         return {'kind': 'fixed', 'text': gen_urltext(r)}
